@@ -42,6 +42,9 @@ def build(reg):
             "pulser State._to_abstract_repr()/from_state_amplitudes: a dict {'eigenstates', 'amplitudes': {string: "
             "amplitude}} and its inverse; one arbitrary entry is followed",
             "contracts of the permutation helpers and of minimize_bandwidth (verified under C32)",
+            "the chain __init__ -> init_dark_qubits -> update_H is composed by matching clauses (the postcondition "
+            "of one function is literally the precondition of the next, with site_atom = perm[full_site]); "
+            "MPSBackendImpl.init() itself, which calls them in this order, is not under contract",
         ],
         bounded=["initial-state amplitudes: ONE arbitrary entry of the amplitudes dict (entries are mapped "
                  "independently by the dict comprehension); string length and N symbolic",
